@@ -760,9 +760,11 @@ theorem c07Holds_def (E : ReEnv) (cfg : Cfg) (e : Entry) (sr : SReq) (o : Spec.O
         (o.ce == "gzip".toList || o.ce == "deflate".toList) && containsSub o.ce sr.acceptEncoding &&
           Spec.enabledFor E cfg e sr && sr.priorEncoding.isEmpty && o.complete &&
           (Spec.opaqueBody cfg o (serve E { Spec.noCoding cfg with recover := false } e {} (plainReq sr)).escaped.isSome ||
+            Spec.libraryErrorText E cfg e sr ||
             o.body == (serve E (Spec.noCoding cfg) e {} (plainReq sr)).rc.body) && o.acq == 1
       else
         (Spec.opaqueBody cfg o (serve E { Spec.noCoding cfg with recover := false } e {} (plainReq sr)).escaped.isSome ||
+            Spec.libraryErrorText E cfg e sr ||
             o.body == (serve E (Spec.noCoding cfg) e {} (plainReq sr)).rc.body) &&
           o.ce == sr.priorEncoding && o.acq == 0) := rfl
 
@@ -777,6 +779,7 @@ theorem c07Holds_iff (E : ReEnv) (cfg : Cfg) (e : Entry) (sr : SReq)
       ((serve E cfg e {} sr).rc.comp.isSome = true ∨ ceOf (serve E cfg e {} sr).rc = sr.priorEncoding) := by
   rw [c07Holds_def]
   generalize Spec.opaqueBody cfg _ _ = q
+  generalize Spec.libraryErrorText E cfg e sr = q2
   rw [obsOf_coded, obsOf_body, obsOf_complete, obsOf_acq, obsOf_ce, serve_world, ledger_acquired]
   cases hc : (serve E cfg e {} sr).rc.comp with
   | none =>
